@@ -9,7 +9,8 @@ bundle's user actions, from the statement:
 
   C31.parallel          len(direct) == len(stored) and every flag is a bool        [every bundle]
   C31.calc_not_direct   a stored record update on an ordinary table that only writes formula
-                        columns, or trigger-formula columns the bundle did not name, is non-direct
+                        columns, or trigger-formula columns (of non-reference type) the bundle did
+                        not name, is non-direct
   C31.summary_rows_not_direct   every stored record action on a summary table is non-direct
   C31.empty_column_conversion_not_direct   every stored schema action and every stored action on a
                         _grist_* table is non-direct (in this bound they can only come from the
@@ -68,11 +69,14 @@ def table_kinds(e):
 
 
 def columns_info(e):
-  """{(tableId, colId): (isFormula, formula)} from the engine's schema (== metadata, C08)."""
+  """{(tableId, colId): (isFormula, formula)} from the engine's schema (== metadata, C08).  For a
+  Ref/RefList DATA column the formula is reported as '<ref>' + formula: such columns also receive
+  engine-maintenance writes (reference clearing when target rows go away, two-way reference
+  syncing) which the statement does not classify, so the trigger-column rule does not apply."""
   out = {}
   for tid, t in e.schema.items():
     for cid, c in t.columns.items():
-      out[(tid, cid)] = (c.isFormula, c.formula)
+      out[(tid, cid)] = (c.isFormula, c.formula, c.type.startswith("Ref"))
   return out
 
 
@@ -140,7 +144,7 @@ class C31Monitor(explore.Monitor):
       info = columns_info(e)
       for a in b:
         if a[0] in ("AddRecord", "UpdateRecord") and isinstance(a[3], dict) and rng.random() < 0.3:
-          empties = [c for (t, c), (isf, f) in info.items() if t == a[1] and isf and not f]
+          empties = [c for (t, c), (isf, f, _r) in info.items() if t == a[1] and isf and not f]
           if empties:
             a[3][rng.choice(empties)] = rng.choice([1, "x", 2.5, None, "", True, "2020-01-01"])
       if is_record_bundle(b, kinds):
@@ -191,17 +195,18 @@ class C31Monitor(explore.Monitor):
       if name in ("UpdateRecord", "BulkUpdateRecord"):
         cols = a[3]
         def is_calc(c):
-          isf, f = post.get((t, c), (False, ""))
+          isf, f, isref = post.get((t, c), (False, "", False))
           if isf: return True
-          pisf, pf = pre.get((t, c), (isf, f))
-          return bool(f) and bool(pf) and (t, c) not in named       # trigger column, not named
+          pisf, pf, _ = pre.get((t, c), (isf, f, isref))
+          # trigger column, not named by the bundle (reference columns excepted, see columns_info)
+          return bool(f) and bool(pf) and (t, c) not in named and not isref
         if cols and all(is_calc(c) for c in cols):
           count("formula-result update on an ordinary table", i)
           if direct[i]: bad("C31.calc_not_direct", i, "only formula / unnamed trigger columns")
           continue
         for c, v in cols.items():
-          pisf, pf = pre.get((t, c), (True, "x"))
-          isf, f = post.get((t, c), (True, "x"))
+          pisf, pf, _ = pre.get((t, c), (True, "x", False))
+          isf, f, _ = post.get((t, c), (True, "x", False))
           if pisf or pf or isf or f or (t, c) not in named:
             continue                                                 # not a plain data column
           vals = v if name == "BulkUpdateRecord" else [v]
